@@ -23,6 +23,8 @@ META = {
 META["explanation"] += " " + '(SB-overload) the const& and && overloads of one Value operation that do not forward to each other apply the same kind tests to this value, the source and its elements. (RV-use) an rvalue-reference parameter is only moved from, inspected through members or emptied explicitly, never named as a plain value (which copies it).'
 META["explanation"] += " " + '(PR-recurse) every path through a container arm of Value::Compress reaches the loop that compresses the children, or empties the container.'
 META["explanation"] += " " + '(IDX-digits, shared with C02) an array element is addressed by a validated decimal index only.'
+META["explanation"] += " " + '(SB-getfilter) the GetValue overloads return a member only after an isUndefined() test on every path (must-analysis), or the answer of a recursive GetValue.'
+META["explanation"] += " " + '(PR-mergefilter) Merge appends defined elements one by one (each tested with isUndefined() on every path), never a whole source array.'
 
 SUPPRESS = [
     ("Qentem::Value::Storage()", "this.array_",
@@ -198,7 +200,7 @@ def run(ctx):
         t1.suppressions.append({"rule": "TS-value", "function": fn_sig, "construct": construct, "reason": reason, "matched": hit})
     t1.notes.append("%d member functions of Value analysed; kinds %s" % (n, sorted(spec.kinds)))
     from rules.common import rule_overload_pairs, rule_rvalue_use, rule_fast_digits
-    return [t1, tx, rule_zero(ctx), rule_overload_pairs(ctx, m), rule_rvalue_use(ctx, m), rule_recurse(ctx, m), rule_fast_digits(ctx, m)]
+    return [t1, tx, rule_zero(ctx), rule_overload_pairs(ctx, m), rule_rvalue_use(ctx, m), rule_recurse(ctx, m), rule_fast_digits(ctx, m), rule_get_filter(ctx, m), rule_merge_filter(ctx, m)]
 
 
 
@@ -292,4 +294,137 @@ def rule_recurse(ctx, m):
                 work.append((s_, done))
         r.ob(f.q, "arm %s" % ct, bad is None, "every path reaches the loop over the children or empties the container" if bad is None else
              "a path leaves the arm at %s without visiting the children: nested containers keep their removed members" % (f.loc(bad)[0] if isinstance(f.loc(bad), tuple) else f.loc(bad)), f.loc(i))
+    return r
+
+
+
+def rule_get_filter(ctx, m):
+    """SB-getfilter: a removed or never-assigned member is Undefined and reads as absent: the keyed and the positional GetValue
+    are siblings and both answer nullptr for it.  In every Object / Array arm of the Value::GetValue overloads a returned member
+    pointer is either the result of a recursive GetValue on the pointed-to value, or a local that was tested with isUndefined()
+    on every path to the return (must-analysis: true edge of !p->isUndefined() / false edge of p->isUndefined())."""
+    from qlib import dataflow
+    r = Rule("SB-getfilter", "the GetValue overloads return a member only after testing that it is not Undefined", floor=4)
+    for f in m.functions:
+        if f.inst or not f.cfg or f.cls != "Qentem::Value" or f.name != "GetValue":
+            continue
+        rets = []
+        for x in astq.nodes_of(f, "ReturnStmt"):
+            v = f.nodes[x].get("val", -1)
+            if v is None or v < 0:
+                continue
+            vn = f.nodes[f.strip_casts(v)]
+            if vn["k"] == "DeclRefExpr" and vn.get("tk") == "ptr" and vn.get("dk") == "var":
+                rets.append((x, vn["d"], vn["n"]))
+            elif vn["k"] in ("CallExpr", "CXXMemberCallExpr") and f.call_receiver(f.strip_casts(v)) is not None and \
+                    f.text(f.call_receiver(f.strip_casts(v))).replace("this.", "") in ("object_", "array_"):
+                rets.append((x, None, f.text(v)))
+        if not rets:
+            continue
+        ctx.note_fn(f)
+        blocks = f.blocks()
+        fact = {f.cfg["entry"]: frozenset()}
+        work = [f.cfg["entry"]]
+        at = {}
+        it = 0
+        while work and it < 6000:
+            it += 1
+            bid = work.pop()
+            st = fact[bid]
+            for e in blocks[bid]["el"]:
+                x = e.get("n")
+                if isinstance(x, int) and not e.get("k"):
+                    at[x] = st if x not in at else (at[x] & st)
+            for (s_, kind, payload) in dataflow.successors(f, blocks[bid]):
+                out = st
+                if kind in ("true", "false") and payload is not None:
+                    c = f.strip(payload)
+                    want = kind == "true"
+                    while f.nodes[c]["k"] == "UnaryOperator" and f.nodes[c]["op"] == "!":
+                        c = f.strip(f.nodes[c]["ch"][0])
+                        want = not want
+                    cn = f.nodes[c]
+                    if cn["k"] in ("CallExpr", "CXXMemberCallExpr") and (f.call_simple_name(c) or "") in ("isUndefined", "IsUndefined") and not want:
+                        rc = f.call_receiver(c)
+                        if rc is not None and f.nodes[f.strip(rc)]["k"] == "DeclRefExpr":
+                            out = st | {f.nodes[f.strip(rc)]["d"]}
+                new_ = out if s_ not in fact else (fact[s_] & out)
+                if s_ not in fact or new_ != fact[s_]:
+                    fact[s_] = new_
+                    work.append(s_)
+        for (x, d, nm) in rets:
+            ok = d is not None and d in at.get(x, frozenset())
+            r.ob(f.sig, "return %s" % nm[:40], ok, "the member was found not to be Undefined on every path to this return" if ok else
+                 "%s is handed out without an isUndefined() test: a removed or never-assigned member is returned as if it were present (the positional and the keyed read disagree)" % (
+                     "`%s`" % nm if d is not None else "the container's answer"), f.loc(x))
+    return r
+
+
+
+def rule_merge_filter(ctx, m):
+    """PR-mergefilter: removed or never-assigned elements are Undefined and are not part of the document: Merge takes over the
+    DEFINED elements of an array only.  In the Merge overloads every append to this value's array is an append of one element that
+    was tested with isUndefined() on the way (must-analysis), never of the source's whole array (which carries its holes along:
+    sizes and indexes of the merged array then disagree with the document)."""
+    from qlib import dataflow
+    r = Rule("PR-mergefilter", "Merge appends the defined elements of an array one by one, never the array with its holes", floor=1)
+    for f in m.functions:
+        if f.inst or not f.cfg or f.cls != "Qentem::Value" or f.name != "Merge":
+            continue
+        blocks = f.blocks()
+        apps = []
+        for x in f.walk():
+            n = f.nodes[x]
+            if n["k"] in ("CompoundAssignOperator", "BinaryOperator", "CXXOperatorCallExpr") and n.get("op") == "+=":
+                lhs = f.call_args(x)[0] if n["k"] == "CXXOperatorCallExpr" else n["ch"][0]
+                rhs = f.call_args(x)[1] if n["k"] == "CXXOperatorCallExpr" else n["ch"][1]
+                if f.text(lhs).replace("this.", "") == "array_":
+                    apps.append((x, rhs))
+        if not apps:
+            continue
+        ctx.note_fn(f)
+        # facts: pointer locals known to point at a defined element
+        fact = {f.cfg["entry"]: frozenset()}
+        work = [f.cfg["entry"]]
+        at = {}
+        it = 0
+        while work and it < 6000:
+            it += 1
+            bid = work.pop()
+            st = fact[bid]
+            for e in blocks[bid]["el"]:
+                x = e.get("n")
+                if isinstance(x, int) and not e.get("k"):
+                    at[x] = st if x not in at else (at[x] & st)
+                    n = f.nodes[x]
+                    if n["k"] == "UnaryOperator" and n["op"] in ("++", "--"):
+                        st = st - {f.nodes[f.strip(n["ch"][0])].get("d")}
+            for (s_, kind, payload) in dataflow.successors(f, blocks[bid]):
+                out = st
+                if kind in ("true", "false") and payload is not None:
+                    c = f.strip(payload)
+                    want = kind == "true"
+                    while f.nodes[c]["k"] == "UnaryOperator" and f.nodes[c]["op"] == "!":
+                        c = f.strip(f.nodes[c]["ch"][0])
+                        want = not want
+                    cn = f.nodes[c]
+                    if cn["k"] in ("CallExpr", "CXXMemberCallExpr") and (f.call_simple_name(c) or "") in ("isUndefined", "IsUndefined") and not want:
+                        rc = f.call_receiver(c)
+                        if rc is not None and f.nodes[f.strip(rc)]["k"] == "DeclRefExpr":
+                            out = st | {f.nodes[f.strip(rc)]["d"]}
+                new_ = out if s_ not in fact else (fact[s_] & out)
+                if s_ not in fact or new_ != fact[s_]:
+                    fact[s_] = new_
+                    work.append(s_)
+        for (x, rhs) in apps:
+            rt = f.text(rhs)
+            bulk = ".array_" in rt.replace("this.", "") or rt.replace("this.", "").endswith("array_)") and "Move" in rt
+            ptrs = [f.nodes[y].get("d") for y in f.walk(rhs) if f.nodes[y]["k"] == "DeclRefExpr" and f.nodes[y].get("tk") == "ptr"]
+            if bulk:
+                ok, why = False, "`%s` appends the source's whole array: its Undefined (removed) elements come along and the merged array's Size() and indexes disagree with the document" % rt[:50]
+            elif ptrs and all(p_ in at.get(x, frozenset()) for p_ in ptrs):
+                ok, why = True, "one element, found not to be Undefined on every path to the append"
+            else:
+                ok, why = False, "`%s` is appended without an isUndefined() test of that element" % rt[:50]
+            r.ob(f.sig, f.text(x)[:60], ok, why, f.loc(x))
     return r
